@@ -111,12 +111,22 @@ def _raised_classes(fn, exc):
 
 def _rule_argument_materialised_first(ctx, typer):
     """E5: the iterable handed to `children =` is turned into a tuple BEFORE anything else looks at it; every other use
-    of the parameter is dominated by that conversion (a one-shot iterator validated first would be empty afterwards)"""
+    of the parameter is dominated by that conversion (a one-shot iterator validated first would be empty afterwards).
+    The conversion may live in a private helper of the class that obeys the same rule and returns the tuple."""
     import ast
+    from ..model import Func, mangle
     from .common import cfg_nodes_containing, walk_own
-    for m in ("NodeMixin", "LightNodeMixin"):
-        f = ctx.p.func(m, "children", "setter")
-        prm = [x for x in f.posparams if x != f.selfname][0]
+
+    def helper_of(f, call):
+        """Func of `Cls.__helper(prm)` / `self.__helper(prm)`"""
+        if not (isinstance(call, ast.Call) and isinstance(call.func, ast.Attribute) and call.func.attr.startswith("__") and f.cls is not None):
+            return None
+        mem = f.cls.members.get(mangle(f.cls.name, call.func.attr))
+        return mem if isinstance(mem, Func) else None
+
+    def check(f, prm, label, depth=0):
+        """-> True when the rule holds in f for parameter prm (violations are reported here); for a helper also requires
+        that every return hands back the materialised value"""
         cfg = typer.cfg_of(f)
         conv = []
         extra_ok = set()
@@ -137,10 +147,21 @@ def _rule_argument_materialised_first(ctx, typer):
                         and isinstance(other, (ast.Tuple, ast.List)) and not other.elts:
                     conv.append(cn)
                     extra_ok |= {id(x) for x in ast.walk(ie) if isinstance(x, ast.Name) and x.id == prm}
+            elif depth == 0 and isinstance(a, ast.Assign) and isinstance(a.value, ast.Call) and len(a.value.args) == 1 and not a.value.keywords \
+                    and isinstance(a.value.args[0], ast.Name) and a.value.args[0].id == prm:
+                h = helper_of(f, a.value)
+                if h is not None:
+                    hp = [x for x in h.posparams if x != h.selfname]
+                    if len(hp) == 1:
+                        ctx.touch(h)
+                        if check(h, hp[0], "%s (for %s)" % (h.qual, label), depth + 1):
+                            conv.append(cn)
+                        else:
+                            return False
         if not conv:
             ctx.viol("E5", f, f.node, "the assigned iterable is never materialised with tuple(...): a generator is consumed by the first "
-                     "loop over it", construct="%s.children.setter: no materialisation" % m)
-            continue
+                     "loop over it", construct="%s: no materialisation" % label)
+            return False
         conv_args = {id(c.ast.value.args[0]) for c in conv} | extra_ok
         bad = None
         # materialised under ANOTHER name: the raw argument must not be looked at again at all (validating or iterating
@@ -153,8 +174,8 @@ def _rule_argument_materialised_first(ctx, typer):
             if bad is not None:
                 ctx.viol("E5", f, bad, "the raw argument `%s` is used again after it was materialised as `%s`: a one-shot iterator is "
                          "already exhausted there, so that use (validation, iteration) sees nothing" % (
-                             prm, norm(other_name[0].ast.targets[0])), construct="%s.children.setter: raw argument used after tuple()" % m)
-                continue
+                             prm, norm(other_name[0].ast.targets[0])), construct="%s: raw argument used after tuple()" % label)
+                return False
         for x in walk_own(f.node):
             if isinstance(x, ast.Name) and x.id == prm and isinstance(x.ctx, ast.Load) and id(x) not in conv_args:
                 for h in cfg_nodes_containing(cfg, x):
@@ -163,9 +184,21 @@ def _rule_argument_materialised_first(ctx, typer):
         if bad is not None:
             ctx.viol("E5", f, bad, "the assigned iterable `%s` is used before it has been turned into a tuple: a one-shot iterator "
                      "(generator, reversed, filter) is exhausted by that use and the children end up empty" % prm,
-                     construct="%s.children.setter: argument used before tuple()" % m)
-        else:
-            ctx.inst("E5", f, conv[0].ast, "argument materialised before any other use")
+                     construct="%s: argument used before tuple()" % label)
+            return False
+        if depth:
+            names = {norm(t) for c in conv for t in c.ast.targets}
+            rets = [r for r in walk_own(f.node) if isinstance(r, ast.Return)]
+            if not rets or not all(r.value is not None and norm(r.value) in names for r in rets):
+                ctx.viol("E5", f, f.node, "the helper that materialises the assigned iterable does not hand the tuple back on every return: its "
+                         "caller goes on with something else", construct="%s: tuple not returned" % label)
+                return False
+        ctx.inst("E5", f, conv[0].ast, "argument materialised before any other use")
+        return True
+    for m in ("NodeMixin", "LightNodeMixin"):
+        f = ctx.p.func(m, "children", "setter")
+        prm = [x for x in f.posparams if x != f.selfname][0]
+        check(f, prm, "%s.children.setter" % m)
 
 
 def _rule_type_refusals_admit_every_node(ctx, typer):
